@@ -351,7 +351,7 @@ func (fx *Fx) doAppend(st *State, args []Val, ins ssa.Instruction, pos token.Pos
 		return s
 	}
 	// fresh object for the growing case
-	lo := st.NewLocal(false, "append")
+	lo := fx.newLocal(st, false, "append")
 	L := LocalObj(lo.ID)
 	ncap := Sym(freshName("appcap"), B64)
 	fx.assume(st, And(BVOp("bvsle", newLen, ncap), BVOp("bvule", ncap, BVConst(1<<48, 64)),
@@ -440,7 +440,7 @@ func (fx *Fx) applyContract(st *State, ct *Contract, fn *ssa.Function, args []Va
 	for _, f := range ct.Fresh {
 		// (fresh <expr>): the object is newly allocated by the callee: it becomes a local of the caller
 		v := fx.P.elab(fx, f, env)
-		lo := st.NewLocal(false, "fresh:"+shortCallee(name))
+		lo := fx.newLocal(st, false, "fresh:"+shortCallee(name))
 		L := LocalObj(lo.ID)
 		// substitute the symbolic object leaf by the local id everywhere in the result
 		ot := v.L[objLeaf(v)]
@@ -475,7 +475,7 @@ func (fx *Fx) applyContract(st *State, ct *Contract, fn *ssa.Function, args []Va
 		pv := fx.P.elab(fx, ff.List[1], post)
 		loc := fx.P.locRanges(fx, &SExp{IsL: true, List: []*SExp{{Atom: "field"}, ff.List[1], ff.List[2]}}, post)[0]
 		_ = pv
-		lo := st.NewLocal(false, "fresh:"+shortCallee(name)+"."+ff.List[2].Atom)
+		lo := fx.newLocal(st, false, "fresh:"+shortCallee(name)+"."+ff.List[2].Atom)
 		st.StoreCell(KObj, loc.Obj, loc.Lo, LocalObj(lo.ID), True())
 		st.Escaped[lo.ID] = true
 	}
